@@ -8,6 +8,8 @@ import (
 
 	"google.golang.org/grpc/codes"
 
+	"istio.io/istio/pkg/simhook"
+
 	"verif/sim/engine"
 )
 
@@ -35,6 +37,8 @@ func runC05(t *testing.T, r *engine.Run) {
 	}()
 	w := newWis(t, r, insts[0])
 	defer w.cancel()
+	defer simhook.SetHook(nil)
+	initWindow := tp.Bool(1, 2, "initWindowHook")
 	for _, c := range pickClients(tp, 3, true) {
 		w.addClient(c)
 	}
@@ -62,6 +66,11 @@ func runC05(t *testing.T, r *engine.Run) {
 	if !quiesceAll() {
 		r.Inconclusive = "no initial quiescence"
 		return
+	}
+	if initWindow {
+		// from now on a (re)connecting proxy is held between the registration of its connection and the
+		// initialisation of the proxy until the simulator releases it
+		w.enableHooks("ads.init.afterAddCon")
 	}
 	wd := newWorld(tp, nil)
 	maxSteps := 10 + tp.Choose(50, "maxsteps")
@@ -102,6 +111,10 @@ func runC05(t *testing.T, r *engine.Run) {
 				}
 				synctest.Wait()
 				nmut++
+				if len(w.parkedHooks()) > 0 {
+					r.Probe("mutation_during_connection_init")
+					r.NonTriv = true
+				}
 				for _, c := range w.clients {
 					if !c.connected {
 						missed = true
@@ -139,6 +152,13 @@ func runC05(t *testing.T, r *engine.Run) {
 				add(2, fmt.Sprintf("reconnect:%d", ci), func() { reconnect(c) })
 			}
 		}
+		for _, k := range w.parkedHooks() {
+			k := k
+			add(2, "release:"+k, func() {
+				r.Logf("release %s", k)
+				w.releaseHook(k)
+			})
+		}
 		if allowRestart {
 			add(1, "restart", func() {
 				// istiod restart: all its streams die; a new instance is assembled over the surviving API-server state
@@ -172,6 +192,7 @@ func runC05(t *testing.T, r *engine.Run) {
 		return
 	}
 	// faults stop: everybody reconnects, everything is delivered
+	w.drainHooks()
 	for _, c := range w.clients {
 		w.reapStream(c)
 		if !c.connected {
